@@ -427,7 +427,7 @@ func (e *emitter) c14WithAcceptable(s *source, rel string) {
 		if r, isRet := fd.Body.List[0].(*ast.ReturnStmt); isRet && len(r.Results) == 1 {
 			if fl, isFn := r.Results[0].(*ast.FuncLit); isFn && len(fl.Body.List) >= 1 {
 				body := fl.Body.List
-				// an optional leading guard  if <param> == nil { return }  (fixes/C14-withacceptable-nil.patch)
+				// an optional leading guard  if <param> == nil { return }  (fixes/not-applied/C14-withacceptable-nil.patch)
 				if g, isIf := body[0].(*ast.IfStmt); isIf && len(body) == 2 && g.Init == nil && g.Else == nil &&
 					c14Flat(s.src(g.Cond)) == param+" == nil" && len(g.Body.List) == 1 {
 					if gr, isR := g.Body.List[0].(*ast.ReturnStmt); isR && len(gr.Results) == 0 {
